@@ -355,10 +355,11 @@ func (c *ClientConn) maybePrepareAndExecute(request Request, raw *frame.RawFrame
 					zap.String("host", c.conn.RemoteAddr().String()),
 					zap.String("id", id),
 					zap.Error(err))
-				return false
-			} else {
-				return true
+				// The statement is in the cache, so the client must not be handed the unprepared error; it can't be
+				// prepared on this connection (e.g. no stream available), so the request moves on to the next host.
+				request.Execute(true)
 			}
+			return true
 		} else {
 			c.logger.Warn("received unprepared error response, but existing prepared ID not in the cache",
 				zap.String("id", id))
